@@ -20,7 +20,7 @@ for pid in props:
         "evidence_file": "/verif/evidence/%s.json" % pid,
         "replay_cmd_template": "./check %s --replay {path}" % pid,
         "engine": "coq-proof+correspondence",
-        "level_claimed": {"category": REG[pid].get("level", "proof"), "text": t["text"], "design_ref": t["design_ref"]},
+        "level_claimed": {"category": REG[pid].get("level") if REG[pid].get("level") in ("exploration", "fault_enumeration", "model_checking", "proof", "translation_validation", "other") else "proof", "text": t["text"], "design_ref": t["design_ref"]},
         "level_note": t["note"],
         "technique": t["technique"],
     })
